@@ -195,7 +195,9 @@ def tlc(ctx, module, cfg, workers=8, simulate=None, depth=None, timeout=900, env
     cmd = ["timeout", str(timeout), "tlc", "-workers", str(workers), "-metadir", meta, "-noGenerateSpecTE",
            "-config", cfgname]
     if simulate is not None:
-        cmd += ["-simulate", "num=%d" % simulate]
+        # reproducible: the simulation seed is derived from VERIF_SEED and the job name
+        sd = (ctx.seed * 1000003 + sum(ord(c) * (i + 1) for i, c in enumerate(name or cfgname))) % (2 ** 31)
+        cmd += ["-seed", str(sd), "-simulate", "num=%d" % simulate]
         if depth:
             cmd += ["-depth", str(depth)]
     else:
